@@ -159,7 +159,7 @@ PROPS = {
         {
             "each round picks an active member, never a Down one; nobody only when no member is active": "theorem (full): next_returns_an_active_member, next_none_iff_no_active",
             "scan order: first active at or after the cursor, wrap to the first active and request a reshuffle": "theorem (full): next_scans_forward, next_wraps_and_reshuffles, reshuffle_condition",
-            "every window of 2n-1 rounds pings each active member": "partial: not yet a theorem (proof sketch in DESIGN.md Appendix B); search over n <= 8 (12 thorough), 0-4 Down records, random join/removal prefixes and many seeds, on real instances",
+            "every window of 2n-1 rounds pings each active member": "theorem (full: any list, any number and arrangement of Down records, any cursor position, every permutation each reshuffle may produce, runs of any length): C14H.window, C14H.every_window (measure `bound` decreasing per round, Proofs/RoundRobin.lean), tied to the instance model by C14H.members_next_is_a_round; tightness witness (2n-2 is not enough) as a decided example; search over n <= 8 (12 thorough), 0-4 Down records, random join/removal prefixes and many seeds, on real instances",
         },
         "search: real instances with n active and d Down members built through random batches of joins, removals and interleaved rounds, then 5n+3 consecutive probe timers; the destinations of the Pings are checked (one per round, active, not own) and every window of 2n-1 rounds must contain every active member; distinct by history hash, non-trivial when n >= 2. " + RULE_HIST,
         ["the set of members is stable during the window (the property's hypothesis)"],
